@@ -121,6 +121,9 @@ func (d *fuseDrv) counter(k *key) int {
 
 func (d *fuseDrv) use(k *key) int {
 	fd, err := syscall.Open(filepath.Join(d.dir(k), "use"), syscall.O_CREAT|syscall.O_WRONLY, 0o600)
+	for i := 0; err == syscall.EINTR && i < 100; i++ { // interrupted before the request was sent
+		fd, err = syscall.Open(filepath.Join(d.dir(k), "use"), syscall.O_CREAT|syscall.O_WRONLY, 0o600)
+	}
 	if err == nil {
 		syscall.Close(fd)
 	}
@@ -130,6 +133,9 @@ func (d *fuseDrv) use(k *key) int {
 
 func (d *fuseDrv) release(k *key) (int, error) {
 	err := syscall.Rmdir(d.dir(k))
+	for i := 0; err == syscall.EINTR && i < 100; i++ {
+		err = syscall.Rmdir(d.dir(k))
+	}
 	d.dirty[k.img.ref.String()] = true
 	d.w.r.Distinct("fuse_rmdir_errno", fmt.Sprint(err))
 	n := d.counter(k)
@@ -160,7 +166,16 @@ func (d *fuseDrv) lookup(k *key, blob bool) (*looked, error) {
 	}
 	path := filepath.Join(d.dir(k), name)
 	var st syscall.Stat_t
-	if err := syscall.Lstat(path, &st); err != nil {
+	err := syscall.Lstat(path, &st)
+	if err == syscall.EIO || err == syscall.EINTR {
+		// Slack: a lookup whose syscall was interrupted by a signal is cancelled by design
+		// (the node answers EIO). One retry tells a cancelled lookup from a failing one; the
+		// failures this property is about are persistent.
+		d.w.r.Count("fuse_lookup_retried_once", 1)
+		time.Sleep(5 * time.Millisecond)
+		err = syscall.Lstat(path, &st)
+	}
+	if err != nil {
 		d.w.r.Distinct("fuse_lookup_errno", fmt.Sprint(err))
 		if err == syscall.EIO {
 			// layernode.Lookup answers EIO for every getLayer / Verify failure
